@@ -10,8 +10,10 @@ REL = {"flavour": "release", "name": "release"}
 DBG = {"flavour": "debug", "name": "debug"}
 
 
-def miri(shards=16, timeout=900, args=None):
-    return {"flavour": "miri", "name": "miri", "shards": shards, "timeout": timeout, "args": ["--tiny"] + (args or [])}
+def miri(shards=16, timeout=900, args=None, budget=100):
+    # tiny workloads sized for the interpreter (~30-60 s per shard); the budget is a safety net: a shard stops
+    # starting new cases after it and says so in the evidence notes
+    return {"flavour": "miri", "name": "miri", "shards": shards, "timeout": timeout, "args": ["--tiny"] + (args or []), "budget_s": budget}
 
 
 def asan(args=None, timeout=3600):
@@ -20,6 +22,139 @@ def asan(args=None, timeout=3600):
 
 PROPS = {}
 NOT_APPLICABLE = {}
+
+
+def P(pid, technique, rule, assumptions=None, quick=None, thorough=None, floors=None, **kw):
+    PROPS[pid] = dict(technique=technique, rule=rule, assumptions=COMMON_ASSUME + (assumptions or []),
+                      plan={"quick": quick or [REL, DBG], "thorough": thorough or [REL, DBG]}, floors=floors or {}, **kw)
+
+
+RM = "runtime monitoring: "
+
+P("C01", RM + "panic/overflow/internal-error/progress monitors over hostile generated inputs, trees and handler scripts in release + debug(overflow checks) builds, Miri and ASan on the boundary subset, bounded-exhaustive class-alphabet sweep",
+  "inputs: messages that reach handlers with data of every kind, grammar-generated messages, their mutations and prefixes, token-fragment soup, random bytes (NUL/0xFF heavy), inputs up to 64 KiB; "
+  "trees: random depth<=5/fan-out<=6 incl. ambiguous and degenerate ones (empty / over-long names, several defaults, empty branches); handler scripts pulling random typed conversions (31 kinds) at random positions; "
+  "direct drive of Tokenizer / every TryFrom<Token> / ChannelList / NumericList up to the first error; all strings of length<=5 (quick) / 6 (thorough) over 22 class representatives. "
+  "Monitors: catch_unwind + panic hook (any panic is a violation), -300 'Internal parser error' detection, every Ok token must consume input, bounded token/handler counts, wall-clock watchdog with three isolated re-runs. "
+  "Non-trivial = distinct input bytes (sweep: inputs that reach a handler).",
+  ["termination is decided as bounded progress + watchdog; a watchdog suspect that does not reproduce is reported inconclusive, never as a violation",
+   "absence of Miri/ASan reports covers only the executions interpreted; ASan is a red-zone tool"],
+  quick=[REL, DBG, miri(16, 1200)], thorough=[REL, DBG, miri(16, 3600, ["--tier", "thorough"], 1500), asan()],
+  floors={"quick": {"evaluations": 3_000_000, "inputs.reaching-a-handler": 100_000, "direct.tokens": 200_000},
+          "thorough": {"evaluations": 100_000_000, "inputs.reaching-a-handler": 5_000_000}})
+
+P("C02", RM + "recorded handler invocations compared with an independent header resolver (order-preserving path embedding) over random unambiguous trees and message histories",
+  "random unambiguous trees (depth<=5, fan-out<=6, default leaves/branches, anonymous default leaf, suffix siblings, common commands) x histories of 1-4 messages x 1-8 units: absolute, relative, common headers, "
+  "optional nodes omitted or spelled, short/long form, random case, suffix 1 added/dropped, plus hostile units (past a leaf, stops on a branch, near miss, needs going up, other suffix). "
+  "Oracle: refm/resolver.rs designates handler and new level per unit; undefined header => -113, no invocation for it nor after it, hook once. Non-trivial = distinct (tree shape, unit-kind sequence).",
+  ["ambiguous trees are out of scope (SCPI designates nothing); generator rejects them and the resolver reports any it meets"],
+  floors={"quick": {"evaluations": 300_000, "messages.undefined-header": 30_000, "messages.ok": 100_000}, "thorough": {"evaluations": 10_000_000}})
+
+P("C04", RM + "library token stream and handler-visible tokens compared element-by-element (kinds and byte ranges) with an independent three-valued IEEE 488.2 reference lexer; end-to-end rejection check for ill-formed input; bounded-exhaustive sweep",
+  "grammar-generated messages (all seven data types, separators/terminators inside strings, blocks, expressions, every legal white-space placement, indefinite block last, with/without NL), 14 targeted corruption operators, "
+  "and all strings of length<=5 (quick)/6 (thorough) over 22 class representatives. Reference Accept => token sequence and payload byte ranges identical (pointer arithmetic), handlers see exactly the data of their unit; "
+  "Reject => Node::run with omnivorous handlers on a maximally permissive tree returns a command error; Unspecified zones give no verdict. Non-trivial = distinct accepted/rejected inputs.",
+  ["the reference lexer is my reading of 488.2 section 7; zones the standard/project leave open are listed in DESIGN.md 3.1 and give no verdict",
+   "white space before the first header is attributed to Node::run (compared end-to-end), the bare Tokenizer is compared from the first non-blank byte"],
+  floors={"quick": {"evaluations": 5_000_000, "generated.ref.accept": 500_000, "corrupted.ref.reject": 300_000, "tokens.offered-to-handlers": 1_000_000},
+          "thorough": {"evaluations": 100_000_000}})
+
+P("C05", RM + "fault injection (handler-returned errors, arity faults, undefined headers, syntax faults, response-buffer exhaustion at every capacity) with recorded invocation order and error-hook calls checked against the expected prefix",
+  "random trees; k-unit messages (k<=8); for every fault kind the fault is placed in unit i (first/middle/last/only): handler-returned error of every class with/without extended text, too few / too many parameters, "
+  "undefined header, 14 kinds of syntax fault (confirmed ill-formed by the reference lexer), and genuine ArrayVec<u8,CAP> exhaustion for every CAP below the full response length (fails inside a unit, at the ';', at the terminator). "
+  "Oracle: units before i invoked exactly once in order, nothing after i, returned error == injected one, hook called exactly once with an equal error, never on success. Non-trivial = distinct (fault kind, position, message).",
+  floors={"quick": {"evaluations": 1_000_000, "messages.failed-as-expected": 800_000, "messages.succeeded": 20_000}, "thorough": {"evaluations": 30_000_000}})
+
+P("C06", RM + "recorded parameter offers (kind, pointer, length) inside handlers compared with the reference lexer's data elements of the same unit; arity oracle for -109/-108",
+  "random trees; handlers with m required + o optional pulls (m,o in 0..4); units carrying n data elements of all seven kinds with n below, within and above [m, m+o], at first/middle/last/only position, every ending style. "
+  "Oracle: offered tokens are exactly elements 1..min(n,m+o) with identical byte ranges inside the unit's own span; n<m => -109 and nothing later; n>m+o => -108 and the next unit is not invoked; surplus optional pulls yield None.",
+  floors={"quick": {"evaluations": 500_000, "offers.checked": 2_000_000, "messages.err-108": 50_000, "messages.err-109": 50_000}, "thorough": {"evaluations": 20_000_000}})
+
+P("C07", RM + "differential oracle with exact decimal arithmetic (nearest-integer sets incl. double-resolution tolerance) over boundary-directed literals for all ten integer types; Miri on the boundary set",
+  "literals: every NRf spelling of values at type bound +-{0,0.4,0.49..9,0.5,0.50..01,0.6,1}, 2^52/2^53/2^63/2^64 neighbourhoods, zero in 16 spellings, random literals with exponents -400..400 and up to 25 digits, "
+  "exhaustive k/8 grid for the 8-bit types; non-decimal literals through the real lexer; MIN/MAX keywords and near misses; suffixed and non-numeric elements. "
+  "Oracle: acceptable results = nearest integers of the exact value (both at a tie) united with those of the correctly rounded double/single (Rust core parser); all representable => one of them, none => -222, mixed => either. Non-trivial = distinct (literal,type).",
+  ["correct rounding of decimal->binary by Rust's core library is trusted as the second reference"],
+  quick=[REL, DBG, miri(16, 900)], thorough=[REL, DBG, miri(16, 3600, ["--tier", "thorough"], 1500)],
+  floors={"quick": {"evaluations": 1_000_000, "decimal.in-range": 200_000, "decimal.out-of-range": 200_000, "decimal.tie": 5_000}, "thorough": {"evaluations": 40_000_000}})
+
+P("C08", RM + "differential oracle: float conversions against Rust core's correctly rounded parser (bit equality) incl. exact midpoint expansions; exact-decimal oracle for booleans; target x element-kind acceptance matrix",
+  "float literals: zero spellings, exponents -400..400, shortest representations of random f32/f64, exact decimal expansions of f32 midpoints (halfway cases), 17-20 digit cases, overflow/underflow thresholds, powers of two and ten, 30-800 digit strings; "
+  "boolean numerics around 0.5 and beyond 64 bits, ON/OFF and near misses; INF/NINF/NAN/MAX/MIN keywords and near misses; every (target, element kind) pair for 10 targets. Non-trivial = distinct literals / matrix cells.",
+  ["Rust core's str::parse::<f32/f64> is correctly rounded (independent of lexical-core)"],
+  floors={"quick": {"evaluations": 3_000_000, "f64.normal": 300_000, "f32.subnormal": 5_000, "matrix.rejecting-cell": 500_000}, "thorough": {"evaluations": 100_000_000}})
+
+P("C09", RM + "round-trip oracle: emitted response text decoded by independent decoders and by the library's own parser must give back the formatted value; exhaustive for 8/16-bit integers (and all 2^32 f32 patterns in thorough); Miri on extreme numbers",
+  "integers: all u8/i8/u16/i16 (decimal; #H/#Q/#B for non-negative), boundary+random 32/64/size; f32: strided sample of all bit patterns (quick) / all 2^32 (thorough); f64: subnormals, powers of 2 and 10, 2^53 neighbourhood, 17-digit cases, random bits; "
+  "bool; ASCII strings with quotes/separators/control characters (non-ASCII must be refused); blocks around every header-width change up to 10^4 (10^6 thorough); &str; character and expression data; Vec/ArrayVec lists (empty refused); "
+  "derived enums incl. suffix siblings; every standard error (found by sweeping get_error over all i16) and custom errors with/without extended text. Non-trivial = distinct values.",
+  ["NaN/infinities are only checked against the SCPI sentinels; lower-case exponent mark (lexical-core's 1.0e10, pinned by the project's own tests) is counted as an observation, not judged"],
+  quick=[REL, DBG, miri(16, 900)], thorough=[REL, DBG, miri(16, 3600, ["--tier", "thorough"], 1500), asan(["--stages", "int,f64,text,errors"])],
+  floors={"quick": {"evaluations": 5_000_000, "f32.checked": 3_000_000, "string.checked": 100_000, "list.checked": 100_000}, "thorough": {"evaluations": 4_000_000_000}})
+
+P("C10", RM + "byte-exact comparison of the formatter buffer with the expected framing computed from the executed query units, plus structural re-check by an independent response splitter",
+  "random trees; messages of 1-10 units mixing events and queries (1-5 data of 19 value kinds, 0-2 response headers), ended by EOI, NL, CRLF, white space, white space+NL, trailing ';' (+NL / +white space); Vec<u8> and ArrayVec<u8,4096> formatters. "
+  "Oracle: ';'-join of unit texts (headers ':'-joined, one space, data ','-joined, each datum formatted alone) + exactly one NL iff non-empty. Non-trivial = distinct (response, ending, unit count).",
+  floors={"quick": {"evaluations": 500_000, "response-units.decoded": 500_000, "messages.without-output": 10_000}, "thorough": {"evaluations": 30_000_000}})
+
+P("C11", RM + "capacity sweep with the genuine ArrayVec<u8,CAP> formatter for every CAP from 0 past the response length, compared with the growable run; counting global allocator around Node::run; Miri on the sweep",
+  "framing messages (<=4 units) and hostile/corrupted/random inputs; every capacity 0..len+2 (168 instantiations up to 4096). Oracle: CAP>=len => Ok and identical bytes; else exactly -225, hook once, buffer <= CAP and a prefix of the response, no extra handler; "
+  "failing messages fail at every capacity; allocation count across Node::run (ArrayVec formatter, non-allocating handlers) must be 0. Non-trivial = distinct (response, capacity) with exhaustion.",
+  ["capacities are compile-time; 168 instantiations are explored", "allocations are counted per thread by a wrapper around the system allocator"],
+  quick=[REL, DBG, miri(16, 900)], thorough=[REL, DBG, miri(16, 3600, ["--tier", "thorough"], 1500), asan()],
+  floors={"quick": {"evaluations": 500_000, "does-not-fit": 300_000, "fits": 50_000, "runs.allocation-counted": 500_000}, "thorough": {"evaluations": 20_000_000}})
+
+P("C12", RM + "lock-step comparison of every queue operation with a reference FIFO (unique ids per pushed error) for both provided implementations and capacities 1..8,16,64; Miri",
+  "histories of 4-44 operations biased to hover around full / empty (overflow-pop-overflow cycles, clear at full, pop on empty) plus 10^4-operation histories; ArrayVec<Error,N> for N in 1..8,16,64 and Vec<Error>; errors with unique custom codes/messages, standard codes and extended texts. "
+  "After every operation num_errors/is_empty must agree with the model; at the end the queue is drained and compared. Non-trivial = distinct operation/fullness sequences that overflowed or popped on empty.",
+  quick=[REL, DBG, miri(16, 900)], thorough=[REL, DBG, miri(16, 3600, ["--tier", "thorough"], 1500)],
+  floors={"quick": {"evaluations": 200_000, "histories.with-overflow": 50_000, "histories.with-pop-on-empty": 50_000}, "thorough": {"evaluations": 10_000_000}})
+
+STATUS_RULE = ("histories of 5-200 messages (1-4 units each) against a device wired as in the documented example (handle_error->push_error, stb->scpi_stb, cls->scpi_cls, opc->scpi_opc), three queue back-ends, "
+               "interleaved with device-side condition updates (walking ones, complements, double toggles, bit 15) and the message-available flag both ways; vocabulary: all IEEE 488.2 common commands, STATus:OPERation/QUEStionable "
+               "EVENt/CONDition/ENABle/PTR/NTR (decimal and #H/#Q/#B parameters incl. 65535/65536/-1), STATus:PRESet, SYSTem:ERRor NEXT/COUNt/ALL, handler-raised errors of every class, invalid messages of every kind. "
+               "After every message the response text and the complete device state (queue contents, ESR, ESE, SRE, both register sets) are compared with the reference model. Non-trivial = distinct unit-kind sequences per history.")
+
+P("C13", RM + "history monitor: error queue, ESR and SYST:ERR / *ESR? responses in lock-step with a reference status model (emphasis on failing messages and queue reads)", STATUS_RULE,
+  ["where *STB? depends on the summary-bit definition (project: condition&enable, SCPI-99: event&enable) either answer is accepted"],
+  floors={"quick": {"evaluations": 1_000_000, "states.compared": 500_000, "messages.failed.handler-error": 50_000}, "thorough": {"evaluations": 50_000_000}})
+
+P("C14", RM + "exhaustive enumeration of all 65536 error numbers against the class table written out from IEEE 488.2 / SCPI-99, plus a cause-known workload classifying library-raised errors",
+  "all i16 values through Error::custom / ErrorCode::Custom / get_error (code round-trip, class bit, printable non-empty message); 27 syntax/header fault kinds and 10 targets x 7 element kinds (must be command errors), "
+  "range / not-in-set / buffer-exhausted faults (must be execution errors). Non-trivial = distinct codes and fault descriptions.",
+  exhaustive_is_whole_claim=False,
+  floors={"quick": {"evaluations": 500_000, "standard-codes": 100, "cause.wrong-element-type": 100_000}, "thorough": {"evaluations": 5_000_000}})
+
+P("C15", RM + "history monitor: both event-register sets in lock-step with a per-bit latch model under arbitrary condition updates, filter/enable writes, reads, *CLS and STATus:PRESet", STATUS_RULE,
+  floors={"quick": {"evaluations": 1_000_000, "states.compared": 500_000, "device-side.condition-updates": 200_000}, "thorough": {"evaluations": 50_000_000}})
+
+P("C16", RM + "history monitor: *STB? composition (incl. MAV and MSS), *ESE/*SRE/*ESR?/*OPC/*OPC?/*TST?/*CLS/*RST/*WAI in lock-step with a reference 488.2 status model", STATUS_RULE,
+  ["'summary' is accepted both as the project documents it (enabled condition bits) and as SCPI-99 defines it (enabled event bits); the statement does not pick one"],
+  floors={"quick": {"evaluations": 1_000_000, "states.compared": 500_000}, "thorough": {"evaluations": 50_000_000}})
+
+P("C17", RM + "differential oracle: NumericValue<T> recognition against the keyword list and the underlying T conversion, resolution against a reference resolver, invariant min<=v<=max on every success; 14 underlying types",
+  "data elements: decimal literals in every spelling (on, next to and far from the bounds), MIN/MAX/DEF/UP/DOWN in short/long form and random case, 22 near misses (MAXI, DEFA, UPP, INF, ...), non-numeric elements; "
+  "types: 10 integer types, f32, f64, Time<f32>, Frequency<f32>; bounds min<=max incl. min==max, default inside or absent. Non-trivial = distinct (element, type).",
+  floors={"quick": {"evaluations": 2_000_000, "elements.keyword": 50_000, "resolve.value-on-bound": 10_000}, "thorough": {"evaluations": 100_000_000}})
+
+P("C18", RM + "differential oracle: an independent SCPI-99 suffix table (exact factors, temperature offsets) against the converted quantity in f32 and f64 storage; rejection of undefined suffixes; amplitude/decibel classification",
+  "14 quantities x every defined suffix x random case patterns x NRf literals (value compared within 3e-6 / 1e-12 relative, no verdict outside 1e-30..1e30 / 1e-290..1e290), bare numbers, through the real lexer; "
+  "undefined suffixes: suffixes of other quantities, undefined multipliers, one-character near misses, random strings <=12; non-numeric elements; PK/PP/RMS and DBV/DBMV/DBUV classification with the number untouched. Non-trivial = distinct (quantity, suffix spelling, literal).",
+  ["bare temperature is accepted as kelvin or degree Celsius; ANN as 365 or 365.25 days; EV within 1e-5"],
+  floors={"quick": {"evaluations": 2_000_000, "undefined-suffix.rejected": 500_000}, "thorough": {"evaluations": 100_000_000}})
+
+P("C19", RM + "items yielded by ChannelList / NumericList / ChannelSpec iterators and tuple conversions compared with a reference list parser, incl. the listed corruption classes; Miri on the cursor arithmetic",
+  "grammar-generated lists of 0-20 entries: 1-3 dimensional specs, ranges, quoted path names with any ASCII incl. doubled quotes; numeric entries in every NRf spelling, ranges; corruptions: leading/doubled comma, foreign character in entry position, "
+  "range dimension mismatch, third range end, missing separator (numeric lists); directly and through the lexer + Parameters::next_data. Non-trivial = distinct expressions.",
+  ["white space inside list expressions and a missing separator between channel-list entries are not specified by the statement and are not generated"],
+  quick=[REL, DBG, miri(16, 900)], thorough=[REL, DBG, miri(16, 3600, ["--tier", "thorough"], 1500)],
+  floors={"quick": {"evaluations": 1_000_000, "spec.iterated": 500_000, "numeric.corruption.missing-separator": 5_000}, "thorough": {"evaluations": 40_000_000}})
+
+P("C20", RM + "generated programs: a committed corpus of 300 derived enum definitions (1851 variants) compiled into the harness; from_mnemonic / TryFrom<Token> / mnemonic() / response text monitored against the matching rule",
+  "corpus: 1-16 variants, unit and single-field variants, mnemonics with/without lower-case tail and suffix, siblings differing only in suffix, explicit ...1 next to ...2 (tools/gen_enums.py guarantees pairwise non-matching mnemonics). "
+  "Per variant: all case patterns of short/long form with suffix variants, prefixes/extensions, single edits, random data <=12, the other variants' forms; other element kinds. Non-trivial = distinct (enum, datum) near a defined mnemonic.",
+  ["the corpus is finite (300 definitions); leading-zero suffixes give no verdict"],
+  floors={"quick": {"evaluations": 3_000_000, "candidates.designating-a-variant": 500_000, "other-element-kinds.rejected-with-104": 10_000}, "thorough": {"evaluations": 100_000_000}})
 
 PROPS["C03"] = {
     "technique": "runtime monitoring: differential oracle (property iff) over generated and bounded-exhaustive (definition,candidate) pairs, release+debug builds",
